@@ -1082,6 +1082,8 @@ func (m *Machine) symArrayIndex(fr *frame, instr ssa.Instruction, a Array, idx N
 	var inb *Term
 	if it.sort == SInt {
 		inb = TAnd(TCmp(">=", it, TInt(0)), TCmp("<", it, TInt(int64(len(a)))))
+	} else if w := bvWidth(it.sort); w < 63 && uint64(len(a)) >= uint64(1)<<uint(w) {
+		inb = tTrue // every value of the index type is in range
 	} else {
 		inb = TBVCmp("bvult", it, TBV(bvWidth(it.sort), uint64(len(a))))
 	}
